@@ -69,6 +69,21 @@ def check(spec):
                 last = e
             elif last is None:
                 raise Violation("iter-before-set-epoch", str(main.log[:6]))
+    # the stream is defined by the announced epochs, not by what the sampler objects went through before: a second pass over the
+    # very same scheduler object - with the main sampler's epoch touched from outside in between - yields the same stream
+    if spec["main_kind"] in ("seq", "kd_seq", "epoch", "kd_dist"):
+        if hasattr(main, "set_epoch"):
+            main.set_epoch(17)
+        mark = len(main.log) if spec["main_kind"] == "epoch" else None
+        again = list(itertools.islice(iter(sampler), bound + 1))
+        again_main = [(bool(f), int(g)) for f, g in again if g < N]
+        if again_main != ref_main:
+            raise Violation("second-pass-over-the-same-scheduler-differs", f"first {len(ref_main)} main items, second pass {len(again_main)}; "
+                                                                             f"first difference at {next((k for k in range(min(len(again_main), len(ref_main))) if again_main[k] != ref_main[k]), 'length')}")
+        if mark is not None:
+            ann2 = [e for k, e in main.log[mark:] if k == "set_epoch"]
+            if ann2 != ref["set_epochs"]:
+                raise Violation("set-epoch-log-differs:second-pass", f"announced {ann2} expected {ref['set_epochs']}")
     # batch sampler view (fresh instance: samplers with generators advance per iteration)
     sampler2, _ = im.build_impl(spec)
     batches = list(itertools.islice(iter(sampler2.batch_sampler), bound + 1))
